@@ -24,7 +24,7 @@ RULE = ('stateful: a history = generated workbook + sequence of set_cells batche
         'cell, or a cell beyond the used range, before a query; distinct = distinct history JSON; histories with repeated writes are '
         'also replayed under PYTHONHASHSEED 1,2,3 (thorough: 1..12)')
 ASSUMPTIONS = ['override values never start with "=", are never None or the empty text; float overrides are finite and not integral (a workbook stores 2.0 as 2)',
-               'whole-column references are not generated (a translation enumerates the stored rows; an override beyond them cannot join in)',
+               'whole-column references only under observers that ignore trailing blank rows (SUM, COUNT, MAX, SUMIF(S), COUNTIFS)',
                'values are compared with ==, exceptions by type']
 
 L = wbk.get_column_letter
@@ -35,7 +35,10 @@ def formulas_pool():
     """{p} is replaced by the address of an earlier formula cell (never the cell itself: no cycles)."""
     return ['=A1+B1', '=A1*2', '=SUM(A1:B2)', '=SUM(A1:C3)', '=IF(A1>3,B1,C1)', '=1/0', '=D1+1', '=IFERROR(D1,9)', '=A1&"x"',
             '=MAX(A1:A3)', '=B2-A2', '=COUNT(A1:C3)', '=A1=B1', '=T!A1+1', '=SUM(T!A1:B2)', '={p}*2', '={p}+E2', '=F6', '=SUM(D1:F3)',
-            '=IF(C3,{p},E5)']
+            '=IF(C3,{p},E5)',
+            # whole columns: a cell that is set below the last row of the workbook belongs to them (observers that do not depend on
+            # the number of trailing blank rows)
+            '=SUM(A:A)', '=SUM(A:C)', '=COUNT(B:B)+MAX(A:B)', '=SUMIF(A:A,">1",B:B)', '=SUM(T!A:B)', '=SUMIFS(C:C,A:A,">0")+COUNTIFS(B:B,">2")']
 
 
 def enc_cell(k):
@@ -315,13 +318,15 @@ def build_machine(rec, histories_out):
 
         def _target(self, data):
             wb = self.history['wb']
-            kind = data.draw(st.sampled_from(['existing', 'existing', 'existing', 'region', 'beyond', 'rewrite']))
+            kind = data.draw(st.sampled_from(['existing', 'existing', 'existing', 'region', 'beyond', 'rewrite', 'below']))
             prev = [k for s in self.history['steps'] if s['op'] == 'set' for (k, _, _) in s['batch']]
             if kind == 'rewrite' and prev:
                 return data.draw(st.sampled_from(prev))
             if kind in ('existing', 'rewrite'):
                 return data.draw(st.sampled_from(sorted(wb['cells'])))
             si = data.draw(st.integers(0, len(wb['titles']) - 1))
+            if kind == 'below':
+                return f'{si}:{data.draw(st.integers(1, 3))}:{data.draw(st.sampled_from([7, 9, 10, 15, 40]))}'
             if kind == 'region':
                 return f'{si}:{data.draw(st.integers(1, REGION_C))}:{data.draw(st.integers(1, REGION_R))}'
             return f'{si}:{data.draw(st.sampled_from([7, 8, 12]))}:{data.draw(st.sampled_from([7, 9, 15]))}'
